@@ -40,6 +40,8 @@ func run(c *fw.Ctx) {
 	g.mutations()
 	g.headers()
 	g.oversized()
+	g.endless()
+	g.challenges()
 	g.errorBodies() // last: a panic on Create's upload goroutine kills the worker
 	c.Note("exhaustive_parts", "errbodies: full product of 21 error-body contents x 7 lengths (0,1,1023,1024,1025,4096,1 MiB) x 10 Content-Types x statuses x 23 methods; matrix: status 100..599 x 7 body kinds x 23 methods (+ Create early answer x 3 kinds); uploads: full product of answer time x size x writes x stop-on-error x statuses; "+
 		"placements: all assignments of {200,204,102,302,403,404,500,507}; truncation: every prefix of the chosen documents and objects")
@@ -298,6 +300,9 @@ func (g *gen) matrix() {
 				}
 				cs.setBody(body)
 				cs.Chunk = []int{0, 0, 1, 13}[idx%4]
+				if idx%3 == 1 {
+					cs.Via = "basic-auth" // the wrapper is transparent for every answer
+				}
 				cs.Exp = matrixExpect(m, status, k, he, body)
 				cs.Class = matrixClass(m, status, k)
 				cs.DKey = m.Name + "|http " + httpClass(status) + " + " + k.name
@@ -1333,6 +1338,9 @@ func (g *gen) errorBodies() {
 							cs.setBody(body)
 						}
 						cs.Chunk = []int{0, 0, 7, 1024}[idx%4]
+						if idx%3 == 2 {
+							cs.Via = "basic-auth"
+						}
 						cs.Exp = Expect{Verdict: "err", HTTPCode: status, NoData: true}
 						if content == "daverr-ok" && isXMLMediaType(ct) {
 							sp, lo := condFor(m.Fam)
@@ -1346,6 +1354,104 @@ func (g *gen) errorBodies() {
 						if cs.Gen != "" {
 							cs.body = nil
 						}
+					}
+				}
+			}
+		}
+	}
+}
+
+// --- failing answers whose body never ends --------------------------------------------------------
+
+// A server may stream a body that has no end (or one of many gigabytes). For
+// a failing answer the client needs at most a bounded prefix of it, so every
+// call must still return, with the status. XML media types are left out: the
+// error document is read by a streaming XML decoder, for which "the document
+// goes on" is indistinguishable from "wait for the root to end".
+func (g *gen) endless() {
+	statuses := []int{403, 500}
+	if g.c.Thorough() {
+		statuses = []int{100, 301, 401, 403, 404, 412, 500, 507}
+	}
+	for mi := range methods {
+		m := &methods[mi]
+		for ti, ct := range []string{"", "text/plain", "text/html; charset=utf-8", "application/octet-stream", "application/json"} {
+			for _, status := range statuses {
+				idx, mine := g.next()
+				if !mine {
+					continue
+				}
+				cs := g.newCase(m, "endless", "endless-error-body", status)
+				if ct != "" {
+					cs.Header = [][2]string{{"Content-Type", ct}}
+				}
+				if m.Kind == "options" {
+					cs.Header = append(cs.Header, [2]string{"DAV", "1, addressbook"})
+				}
+				cs.setBody([]byte("the request failed\n"))
+				cs.Endless = true
+				cs.Chunk = []int{0, 4096, 1, 0}[idx%4]
+				if idx%2 == 1 {
+					cs.Via = "basic-auth"
+				}
+				cs.Exp = Expect{Verdict: "err", HTTPCode: status, NoData: true}
+				cs.Class = "http " + failClass(status) + " + body that never ends"
+				cs.DKey = fmt.Sprintf("%s|http %s|endless|ct=%d", m.Name, failClass(status), ti)
+				runCase(g.c, cs)
+			}
+		}
+	}
+}
+
+// --- authentication challenges through the basic-auth wrapper -------------------------------------
+
+// 401 / 407 answers with every kind of challenge, through a client built on
+// HTTPClientWithBasicAuth and on the fake directly: the error carries the
+// status (and the DAV:error condition of an XML body) whatever the challenge
+// offers.
+func (g *gen) challenges() {
+	sets := [][][2]string{
+		nil,
+		{{"WWW-Authenticate", `Basic realm="dav"`}},
+		{{"WWW-Authenticate", `Digest realm="dav", nonce="abc", qop="auth"`}},
+		{{"WWW-Authenticate", "Negotiate"}},
+		{{"WWW-Authenticate", `Bearer realm="dav", error="invalid_token"`}},
+		{{"WWW-Authenticate", `Digest realm="dav", nonce="abc"`}, {"WWW-Authenticate", `Basic realm="dav"`}},
+		{{"WWW-Authenticate", `Negotiate, Basic realm="dav"`}},
+		{{"WWW-Authenticate", "basic"}},
+		{{"WWW-Authenticate", ""}},
+		{{"Proxy-Authenticate", `Basic realm="proxy"`}},
+	}
+	for mi := range methods {
+		m := &methods[mi]
+		for si, set := range sets {
+			for _, status := range []int{401, 407, 403} {
+				for bi, bodyKind := range []string{"none", "text", "daverr"} {
+					for _, via := range []string{"basic-auth", ""} {
+						_, mine := g.next()
+						if !mine {
+							continue
+						}
+						cs := g.newCase(m, "challenges", bodyKind, status)
+						cs.Header = append([][2]string(nil), set...)
+						cs.Via = via
+						cs.Exp = Expect{Verdict: "err", HTTPCode: status, NoData: true}
+						switch bodyKind {
+						case "text":
+							cs.Header = append(cs.Header, [2]string{"Content-Type", "text/plain"})
+							cs.setBody([]byte("authentication required\n"))
+						case "daverr":
+							cs.Header = append(cs.Header, [2]string{"Content-Type", "application/xml; charset=utf-8"})
+							cs.setBody(xmltree.Render(davErrorTree(m.Fam), nil))
+							sp, lo := condFor(m.Fam)
+							cs.Exp.Cond = "{" + sp + "}" + lo
+						}
+						if m.Kind == "options" {
+							cs.Header = append(cs.Header, [2]string{"DAV", "1, addressbook"})
+						}
+						cs.Class = "http " + failClass(status) + " + authentication challenge"
+						cs.DKey = fmt.Sprintf("%s|http %d|challenge %d|body %d|via %s", m.Name, status, si, bi, via)
+						runCase(g.c, cs)
 					}
 				}
 			}
